@@ -18,7 +18,96 @@ RULE = ("real QueryWalker on sqlite over ArchiveFileCopy with inserts/deletes/st
 
 
 def proofs(ctx):
+    # the walker of a node lives as long as the node's I/O object: it is dropped only when reinit() really re-created it
+    import ast
+    from vf.translate import core as T
+
+    ctx.attempted.append("walker-lifecycle")
+    try:
+        upd = T.parse(core.REPO / "alpenhorn/daemon/update.py")
+        ri = T.find_func(upd, "UpdateableNode.reinit")
+        body = T.strip_doc(ri.body)
+        resets = [n for n in ast.walk(ri) if isinstance(n, ast.Assign) and ast.unparse(n.targets[0]) == "self._av_walker"]
+        guarded = [n for n in body if isinstance(n, ast.If) and ast.unparse(n.test) == "did_reinit" and any(x in ast.walk(n) for x in resets)]
+        if len(resets) != 1 or len(guarded) != 1 or ast.unparse(resets[0].value) != "None":
+            raise T.Untranslatable("UNTRANSLATABLE: UpdateableNode.reinit no longer drops the auto-verify walker exactly when the I/O object was re-created")
+        rav = ast.unparse(T.find_func(upd, "UpdateableNode.run_auto_verify"))
+        for frag in ("if self._av_walker is None:", "QueryWalker(ArchiveFileCopy, ArchiveFileCopy.node == self.db, ArchiveFileCopy.has_file != 'N')", "self._av_walker.get(self.db.auto_verify)"):
+            if frag not in rav:
+                raise T.Untranslatable(f"UNTRANSLATABLE: run_auto_verify no longer contains `{frag}`")
+        ctx.obligations.append("walker-lifecycle")
+    except T.Untranslatable as e:
+        ctx.broke("translator", "auto-verify walker lifecycle", str(e))
     core.check_property_file(ctx, "C19.v")
+
+
+def daemon_runs(ctx, cases, nworlds):
+    """the real update_loop: consecutive idle iterations must continue the walk where the previous one stopped"""
+    from alpenhorn.daemon import querywalker as QW
+    from vf.harness import daemon
+
+    base = ctx.tmp() / "av"
+    for k in range(nworlds):
+        rng = ctx.rng
+        n, kk = rng.randint(1, 9), rng.randint(1, 7)
+        spec = {"groups": [{"name": "g"}, {"name": "g2"}], "nodes": [{"name": "n", "group": "g", "stype": "A", "host": "h1", "auto_verify": kk}, {"name": "o", "group": "g2", "stype": "A", "host": "h2", "auto_verify": 2}],
+                "acqs": ["acq"], "files": [{"acq": "acq", "name": f"f{i}", "size": 3} for i in range(n)],
+                "copies": [{"file": i, "node": "n", "has": "Y", "wants": "Y"} for i in range(n)] + [{"file": i, "node": "o", "has": "Y", "wants": "Y"} for i in range(n) if i % 2], "auto_verify_min_days": 7}
+        sim = daemon.Sim(base, spec)
+        calls = []
+        orig = QW.QueryWalker.get
+
+        def get(self_, n_=1, _orig=orig, _calls=calls):
+            cur = self_._id
+            try:
+                items = _orig(self_, n_)
+            except Exception:
+                _calls.append((id(self_), cur, n_, None))
+                raise
+            _calls.append((id(self_), cur, n_, ([c.id for c in items], self_._id)))
+            return items
+
+        QW.QueryWalker.get = get
+        try:
+            live = sorted(c.id for c in w_copies(sim, "n"))
+            iters = 2 * (-(-n // kk) + 1) + 1
+            for _ in range(iters):
+                r = sim.iterate("h1")
+                if r["error"]:
+                    ctx.fail("C19:daemon-died", f"the daemon died: {r['error'][:300]}", {"family": "daemon", "spec": spec})
+                    break
+        finally:
+            QW.QueryWalker.get = orig
+            sim.shutdown()
+        ctx.count("daemon-iterations", len(calls))
+        ctx.distinct_add(("daemon", n, kk))
+        rp = {"family": "daemon", "copies": n, "auto_verify": kk, "calls": [(c[1], c[2], c[3]) for c in calls]}
+        if len(calls) < iters:
+            ctx.fail("C19:auto-verify-skipped", f"{iters} idle iterations made only {len(calls)} auto-verify batches", rp)
+        for a, b in zip(calls, calls[1:]):
+            if a[3] is not None and b[1] != a[3][1]:
+                ctx.fail("C19:walker-restarted", f"an iteration stopped with the cursor at {a[3][1]} but the next one started at {b[1]} (copies {live}, batch {kk}): the walk does not continue", rp)
+                break
+        # coverage: every copy within ceil(N/k)+1 consecutive batches
+        bound = -(-n // kk) + 1
+        for s in range(0, max(0, len(calls) - bound + 1)):
+            seen = set()
+            for c in calls[s:s + bound]:
+                if c[3]:
+                    seen |= set(c[3][0])
+            if set(live) - seen:
+                ctx.fail("C19:coverage-daemon", f"copies {sorted(set(live) - seen)} were not selected in the {bound} consecutive iterations starting at #{s} (N={n}, k={kk})", rp)
+                break
+        for c in calls:
+            cases.append(term(live, c[1], c[2], c[3]))
+        if k == 0:
+            ctx.sample(rp)
+
+
+def w_copies(sim, node):
+    from vf.harness import world as w
+
+    return list(w.ArchiveFileCopy.select().where(w.ArchiveFileCopy.node == sim.nodes[node], w.ArchiveFileCopy.has_file != "N"))
 
 
 # ---- implementation side --------------------------------------------------------------------------------
@@ -304,6 +393,7 @@ def explore(ctx):
     else:
         static_runs(ctx, cases, 8, 10)
         dynamic_runs(ctx, cases, 2500)
+    daemon_runs(ctx, cases, 12 if ctx.quick() else 300)
     bad = core.run_cases(ctx, "walker", "Corr.C19", "case", "check", cases, shard=500)
     for i in bad[:3]:
         ctx.broke("correspondence", f"walker: model and implementation differ on case {cases[i]}")
